@@ -22,6 +22,7 @@ import vlib
 
 I64_MIN, I64_MAX = -2**63, 2**63 - 1
 LADDER_SIZES = [0, 1, 2, 3, 5]          # numbers of elif branches generated for if/elif ladders
+LADDER_SCALE = [16, 17, 63, 64, 65]     # scale points for the fixed ladder corpus (255 / 256: see report, not run)
 CONSTRUCTS = ["several functions per program (int params, int or None result)", "calls f(..) as assignment RHS / println argument / "
               "statement / return value, with positional, keyword (in and out of declaration order) and mixed call-free arguments",
               "return / return e (also early, in branches)", "int literal", "bool literal", "variable", "paren", "unary -", "not", "+ - * // %", "== != < <= > >=",
@@ -787,8 +788,8 @@ def ladder_corpus():
     the instance of C01_elif_first_true the run ties to the model (Dynamic.run) and to the real binary"""
     i = lambda n: ("int", n)
     out = []
-    for n_elif in LADDER_SIZES:
-        ts = [90 - 10 * k for k in range(n_elif + 1)]
+    for n_elif in LADDER_SIZES + LADDER_SCALE:
+        ts = [10 * (n_elif + 1 - k) for k in range(n_elif + 1)]
         for arg in sorted({ts[-1] + 5, ts[0] + 1, ts[len(ts) // 2] + 1, ts[-1] - 3}):
             conds = [("bin", ">=", ("var", 0), i(t)) for t in ts]
             body = [("if", conds[0], [("print", i(1000))], [(c, [("print", i(1001 + k))]) for k, c in enumerate(conds[1:])], [("print", i(2000))])]
@@ -798,10 +799,10 @@ def ladder_corpus():
             out.append(c)
         # order observable without overlap: an earlier condition that raises ZeroDivisionError
         if n_elif >= 2:
-            conds = [("bin", ">=", ("var", 0), i(90)), ("bin", "==", ("bin", "//", i(7), ("var", 1)), i(0))] + \
-                    [("bin", ">=", ("var", 0), i(80 - 10 * k)) for k in range(n_elif - 1)]
+            conds = [("bin", ">=", ("var", 0), i(9000)), ("bin", "==", ("bin", "//", i(7), ("var", 1)), i(0))] + \
+                    [("bin", ">=", ("var", 0), i(10 * (n_elif - k))) for k in range(n_elif - 1)]
             body = [("if", conds[0], [("print", i(1000))], [(c, [("print", i(1001 + k))]) for k, c in enumerate(conds[1:])], None)]
-            c = Case([0, 1], [85, 0], body, origin="corpus")
+            c = Case([0, 1], [15, 0], body, origin="corpus")
             c.expect_stop = 1
             out.append(c)
     return out
@@ -2599,7 +2600,8 @@ def m_all_cells(rng, tier):
     cells = [c for c in cells if c.attrs["use"] != "builtin_abs"]      # abs(x) on a literal-typed x is the int-fallback class
     lad = m_ladder_cells(rng)
     if tier == "quick":
-        cells = [c for c in cells if c.attrs["use"] in M_CORE_USES and not (c.attrs["binder"] == "match" and c.attrs["use"] in ("ladder", "tuple_elem", "closure_capture"))]
+        cells = [c for c in cells if c.attrs["use"] in M_CORE_USES and not (c.attrs["binder"] == "match" and c.attrs["use"] in ("ladder", "tuple_elem", "closure_capture"))
+                 and not (c.attrs["binder"] in M_COMPR and c.attrs["use"] not in ("call_arg", "arith", "ident", "len", "key+call_arg"))]
         rot = rng.randrange(5)
         kinds = ["desc", "asc", "mod", "tick", "tick_and"]
         keep = []
